@@ -273,3 +273,113 @@ func smallSeeds(seed int64) []genFile {
 	add("text", []byte("This is not an image at all, just 60-odd bytes of plain text.\n"), imggen.Truth{})
 	return out
 }
+
+// boundaryFiles: well-formed files in which a multi-byte structure (chunk type, length field,
+// segment header) straddles a multiple of the loaders' 4096-byte read-ahead buffer, and files
+// with segments / chunks larger than 32 KiB before the needed structures.
+func boundaryFiles(seed int64, dense bool) []genFile {
+	rng := core.NewRNG(seed, "boundaryfiles")
+	var out []genFile
+	step := 1
+	if !dense {
+		step = 1
+	}
+	for _, base := range []int{4096, 8192} {
+		for d := -70; d <= 30; d += step {
+			l := base + d - 33 - 12 // 8 sig + 25 IHDR = 33, then this chunk's 8-byte header
+			if l < 0 {
+				continue
+			}
+			// PNG: tEXt of l bytes, then IDAT: the IDAT (or iCCP) chunk header lands around `base`
+			s := pngSpecFor(uint32(1+rng.Intn(900)), uint32(1+rng.Intn(900)), 2, 8, 0, rng)
+			s.Pre = []imggen.PNGChunk{{Type: "tEXt", Data: append([]byte("k\x00"), []byte(latin1(rng, l))...)}}
+			if d%2 == 0 {
+				s.ICC = &imggen.PNGICC{Name: "p", Profile: profileBytes(rng, 300, 2), Level: 0}
+			}
+			b, t := s.Build()
+			out = append(out, genFile{fmt.Sprintf("png text=%d (structure near offset %d)", l+2, base+d), b, t})
+			// JPEG: COM of l bytes then SOF
+			js := imggen.JPEGSpec{Precision: 8, W: 1 + rng.Intn(900), H: 1 + rng.Intn(900), Comps: imggen.StdComps(3, 1, 1), Entropy: []byte{1}}
+			js.Before = []imggen.JPEGSeg{{Marker: 0xFE, Payload: []byte(latin1(rng, base+d-2-4)), Name: "COM"}}
+			if d%2 == 0 {
+				p := profileBytes(rng, 200, 2)
+				js.Before = append(js.Before, imggen.ICCChunkSeg(1, 1, p))
+				js.ICC, js.ICCState = p, "ok"
+			}
+			jb, jt := js.Build()
+			out = append(out, genFile{fmt.Sprintf("jpeg com=%d (structure near offset %d)", base+d-6, base+d), jb, jt})
+		}
+		// WebP: ICCP payload ending around base
+		for d := -6; d <= 6; d++ {
+			b, t := imggen.WebPSpec{Kind: "VP8X", W: 20, H: 30, ICC: profileBytes(rng, base+d-38, 2), Payload: rng.Bytes(10)}.Build()
+			out = append(out, genFile{fmt.Sprintf("webp iccp ends near %d", base+d), b, t})
+		}
+	}
+	// large segments / chunks (> 32 KiB, up to the 16-bit maximum) before the needed structures
+	for _, l := range []int{32765, 32766, 32767, 32768, 32769, 40000, 65000, 65533} {
+		js := imggen.JPEGSpec{Progressive: l%2 == 0, Precision: 8, W: 1 + rng.Intn(900), H: 1 + rng.Intn(900), Comps: imggen.StdComps(1, 1, 1), Entropy: []byte{1}}
+		js.Before = []imggen.JPEGSeg{{Marker: byte(0xE1 + l%14), Payload: rng.Bytes(l), Name: "APPbig"}}
+		jb, jt := js.Build()
+		out = append(out, genFile{fmt.Sprintf("jpeg big segment payload=%d", l), jb, jt})
+		s := pngSpecFor(uint32(1+rng.Intn(900)), uint32(1+rng.Intn(900)), 0, 16, 1, rng)
+		s.Pre = []imggen.PNGChunk{{Type: "zTXt", Data: append([]byte("k\x00\x00"), rng.Bytes(l)...)}}
+		b, t := s.Build()
+		out = append(out, genFile{fmt.Sprintf("png big chunk=%d", l+3), b, t})
+	}
+	return out
+}
+
+// hostileSpecials: small crafted inputs on which a loader extracts metadata and then meets
+// something it cannot parse (the cases where "metadata and an error" or a recovered panic arise).
+func hostileSpecials() []genFile {
+	var out []genFile
+	sof := func(marker byte, payload []byte) []byte {
+		return append([]byte{0xFF, marker, byte((len(payload) + 2) >> 8), byte(len(payload) + 2)}, payload...)
+	}
+	good := []byte{8, 0, 16, 0, 32, 1, 1, 0x11, 0}
+	for _, m := range []byte{0xC0, 0xC2} {
+		for n := 0; n <= 6; n++ {
+			// a valid SOF followed by a SOF whose payload is too short
+			b := append([]byte{0xFF, 0xD8}, sof(m, good)...)
+			b = append(b, sof(m, good[:n])...)
+			b = append(b, 0xFF, 0xDA, 0, 8, 1, 1, 0, 0, 63, 0, 1, 2, 0xFF, 0xD9)
+			out = append(out, genFile{fmt.Sprintf("jpeg valid SOF%x then SOF with %d payload bytes", m, n), b, imggen.Truth{Format: "JPEG"}})
+			// only the short SOF
+			c := append([]byte{0xFF, 0xD8}, sof(m, good[:n])...)
+			c = append(c, 0xFF, 0xD9)
+			out = append(out, genFile{fmt.Sprintf("jpeg SOF%x with %d payload bytes", m, n), c, imggen.Truth{Format: "JPEG"}})
+		}
+	}
+	// segment length fields 0 and 1
+	for _, l := range []byte{0, 1} {
+		out = append(out, genFile{fmt.Sprintf("jpeg APP0 length %d", l), []byte{0xFF, 0xD8, 0xFF, 0xE0, 0, l, 0xFF, 0xC0, 0, 11, 8, 0, 5, 0, 7, 1, 1, 0x11, 0, 0xFF, 0xD9}, imggen.Truth{Format: "JPEG"}})
+	}
+	// PNG: IHDR shorter than 9 bytes / iCCP with empty stream / name without terminator
+	pngc := func(chunks ...[]byte) []byte {
+		b := append([]byte{}, imggen.PNGSig...)
+		for _, c := range chunks {
+			b = append(b, c...)
+		}
+		return b
+	}
+	chunk := func(typ string, data []byte) []byte {
+		b := []byte{byte(len(data) >> 24), byte(len(data) >> 16), byte(len(data) >> 8), byte(len(data))}
+		b = append(append(b, typ...), data...)
+		return append(b, 1, 2, 3, 4)
+	}
+	ihdr := chunk("IHDR", []byte{0, 0, 0, 9, 0, 0, 0, 7, 8, 2, 0, 0, 0})
+	out = append(out,
+		genFile{"png IHDR of 5 bytes", pngc(chunk("IHDR", []byte{0, 0, 0, 9, 0}), chunk("IEND", nil)), imggen.Truth{Format: "PNG"}},
+		genFile{"png iCCP with empty stream", pngc(ihdr, chunk("iCCP", []byte("n\x00\x00")), chunk("IDAT", []byte{1})), imggen.Truth{Format: "PNG"}},
+		genFile{"png iCCP name without terminator", pngc(ihdr, chunk("iCCP", bytes.Repeat([]byte("x"), 90)), chunk("IDAT", []byte{1})), imggen.Truth{Format: "PNG"}},
+		genFile{"png iCCP unknown compression", pngc(ihdr, chunk("iCCP", []byte("n\x00\x07abc")), chunk("IDAT", []byte{1})), imggen.Truth{Format: "PNG"}},
+		genFile{"png two IHDR", pngc(ihdr, ihdr, chunk("IDAT", []byte{1})), imggen.Truth{Format: "PNG"}},
+	)
+	// WebP: VP8X with wrong chunk length, VP8 with bad start code, VP8L bad signature
+	out = append(out,
+		genFile{"webp VP8X length 11", []byte("RIFF\x20\x00\x00\x00WEBPVP8X\x0b\x00\x00\x00\x20\x00\x00\x00\x01\x00\x00\x01\x00\x00\x00ICCP"), imggen.Truth{Format: "WebP"}},
+		genFile{"webp VP8 bad start code", []byte("RIFF\x20\x00\x00\x00WEBPVP8 \x0a\x00\x00\x00\x10\x02\x00\x9d\x01\x2b\x10\x00\x10\x00"), imggen.Truth{Format: "WebP"}},
+		genFile{"webp VP8L bad signature", []byte("RIFF\x20\x00\x00\x00WEBPVP8L\x05\x00\x00\x00\x2e\x00\x00\x00\x00"), imggen.Truth{Format: "WebP"}},
+	)
+	return out
+}
